@@ -283,9 +283,6 @@ class PairingToZ1d:
         if r < abs(l):
             self._projection = self._projection_with_switch_to_left
 
-        self._switch = False
-        self._kk = 0
-
     @cache
     def project(self, x: int):
         return self._projection(x + self._omitting_zero)
@@ -306,22 +303,16 @@ class PairingToZ1d:
         return projection_to_z(x)
 
     def _projection_with_switch_to_right(self, x: int) -> int:
-        res = projection_to_z(x)
-        if self._switch or res < self.left:
-            self._switch = True
-            self._kk += 1
-            val = -self.left + self._kk + 1
-            return val
-        return res
+        # once the (shorter) left side is exhausted, the indices run along the right side
+        if x > -2 * self.left:
+            return x + self.left
+        return projection_to_z(x)
 
     def _projection_with_switch_to_left(self, x: int) -> int:
-        res = projection_to_z(x)
-        if self._switch or res > self.right:
-            self._switch = True
-            self._kk += 1
-            val = -self.right - self._kk
-            return val
-        return res
+        # once the (shorter) right side is exhausted, the indices run along the left side
+        if x > 2 * self.right:
+            return self.right - x
+        return projection_to_z(x)
 
 
 class Boundary:
